@@ -18,7 +18,9 @@ CHECKS = {
         level="model_checking", engine="E1+E2+E4", ref="DESIGN.md section 4 C02",
         text="the schedule space of every specification is explored completely: all linearizations of its memory/"
              "storage operations compatible with the declared dependencies and data flow are evaluated (specification "
-             "evaluator on the reference EVM) on an aliasing-forcing state domain and compared with the run of the block",
+             "evaluator on the reference EVM) on an aliasing-forcing state domain and compared with the run of the block; "
+             "families: pairs, sandwiches and triples of stores (overlap is not transitive) over constant and symbolic "
+             "addresses, prefix trees, the opcode vocabulary",
         note="states = schedules, transitions = (schedule, machine state) evaluations; every schedule is executed on "
              "the specification emitted by the real front-end (no separate model to keep in sync); trusted base: "
              "mc/spec_eval.py + mc/evm_ref.py",
@@ -39,7 +41,9 @@ CHECKS = {
     "C04": dict(
         level="exploration", engine="E1+E3", ref="DESIGN.md section 4 C04",
         text="greedy_from_json is run on every specification produced by the front-end for the enumerated blocks "
-             "(three split policies) and on hand-enumerated and deep-stack specifications; each sequence reported as "
+             "(three split policies), on hand-enumerated and deep-stack specifications, on a crossfeed family (all words "
+             "of length 3-4 over loads/stores with stack operands) and, for every front-end specification that declares "
+             "an ordering or on which the greedy gave up, on every other arrangement of its initial stack; each sequence reported as "
              "success is executed on an independent symbolic stack machine that checks underflow, DUP/SWAP depth, "
              "operands, stores once, declared order and final stack",
         note="trusted base: mc/sym_ref.py (~100 lines); error=1 (greedy gave up) is not a violation",
@@ -61,7 +65,9 @@ CHECKS = {
              "budget of 5 s (min of 3 attempts) and 1 GiB RSS growth, no escaping exception; (b) every (seam, n-th "
              "call, exception type and payload shape: message / no argument / message+code / non-string) of the per-block pipeline is injected into 3-block contracts driven through the "
              "real optimize_asm_in_asm_format: the run must finish, write its output, and differ from the fault-free "
-             "output in at most one block, which must equal its input",
+             "output in at most one block, which must equal its input; (c) a block on which the analysis fails by "
+             "itself (PC whose value is used) at each of 10 placements of a two-contract, three-section document: every "
+             "other block must come out exactly as in the run with a harmless block in that place",
         note="seams are wrapped by module-attribute rebinding in the harness process; budgets are ~1000x the normal "
              "per-block cost; known finding: exponential specification generation on DUP-shared chains",
         technique="exhaustive single-fault enumeration (seam x call index x exception type) plus bounded-exhaustive "
@@ -191,7 +197,9 @@ CHECKS = {
              "projected model is decoded through BlockOptimizer's own reader (OMS syntax, and z3 syntax on a slice) and "
              "executed on the symbolic stack machine within the declared bounds; for four long instances (12-13 "
              "positions) a known realizing sequence is completed into a full model by the same search with the "
-             "instruction variables fixed, printed in three definition orders x two solver syntaxes and decoded",
+             "instruction variables fixed, printed in three definition orders x two solver syntaxes and decoded; -empty "
+             "(no occupancy flags) is explored to length 2 on the tree and to length 3 on stores next to pushes, alone and "
+             "with each term encoding",
         note="the enumerator (mc/smt_enum.py) explores the encoding as a transition system with unit propagation and "
              "branches on anything left undetermined; cross-validated against z3 on dumped instances by "
              "tools/z3_cross.py (28/28 agree); model and implementation are bound by construction: the enumerator "
